@@ -332,6 +332,28 @@ def run(R):
                                                                  ('bare-object' if t in codec.by_name else 'boxed-object')))
     R.extra['generator_stats'] = G.stats
 
+    # ---- every bytes / string length 0..520 (both length-prefix forms, every padding residue) in one bytes-bearing and one string-bearing constructor
+    if R.shard == 0:
+        for n in range(0, 521):
+            for cname, field, mk in (('adnl.message.custom', 'data', lambda n: G.opaque(n)), ('liteServer.error', 'message', lambda n: 'x' * n)):
+                c = ctors.get(cname)
+                if c is None:
+                    continue
+                v = {'@type': cname, **({'code': -1} if cname == 'liteServer.error' else {}), field: mk(n)}
+                want = codec.encode(v)
+                st, got = mon.call(lib_raw.serialize, lib_raw.get_by_name(cname), v)
+                R.counters['oracle_evaluations'] += 1
+                R.count('length_sweep_cases')
+                if st == 'exc' or got != want:
+                    R.violation(f'bytes-differ-{"string" if cname == "liteServer.error" else "bytes"}-length-sweep', f'{cname} with a {n}-byte {field}: serialised bytes differ from the TL encoding '
+                                f'({mon.srepr(got, 40)})', {'constructor': cname, 'length': n})
+                    continue
+                st, res = mon.call(lib_raw.deserialize, want)
+                ok = st == 'ok' and isinstance(res, tuple) and res[1] == len(want) and (res[0].get(field) == (mk(n) if isinstance(mk(n), bytes) else mk(n).encode()) or res[0].get(field) == mk(n))
+                if cname == 'adnl.message.custom':
+                    ok = st == 'ok' and isinstance(res, tuple) and res[1] == len(want) and isinstance(res[0].get(field), (bytes, bytearray)) and len(res[0][field]) == n
+                R.check(ok, f'roundtrip-differs-{"string" if cname == "liteServer.error" else "bytes"}-length-sweep', f'{cname} with a {n}-byte {field} does not parse back / consume all bytes: '
+                        f'{mon.srepr(res, 60)}', {'constructor': cname, 'length': n})
     # ---- a polymorphic field may be given already serialised; a schema file loaded on its own gives the same constructors as inside the bundle
     if R.shard == 0:
         import os as _os
